@@ -405,3 +405,34 @@ theorem C13_order_listed (skip names go : List String) :
     simp [hx, hxn, hxd, mem_filter]
 
 end Ufo2ft.C13
+
+namespace Ufo2ft.C13
+open Ufo2ft List
+
+/-- sorting commutes with filtering (both sides are sorted permutations of the same list) -/
+theorem sortStr_filter (p : String → Bool) (l : List String) : sortStr (l.filter p) = (sortStr l).filter p := by
+  apply Perm.eq_of_pairwise (le := fun a b => a ≤ b)
+  · intro a b _ _ h1 h2; exact String.le_antisymm h1 h2
+  · exact sortStr_sorted _
+  · exact (sortStr_sorted l).filter _
+  · exact (sortStr_perm _).trans ((sortStr_perm l).filter p).symm
+
+/-- **C13_order**: the compiled glyph order of the reduced glyph set (names not in the skip list) is the order of the full
+    glyph set with the skipped names filtered out — the relative order of the remaining glyphs is unchanged — provided
+    `.notdef` itself is not skipped. -/
+theorem C13_order (skip names go : List String) (hnd : skip.contains C03.ND = false) :
+    C03.specOrder (names.filter (fun n => !skip.contains n)) go
+      = (C03.specOrder names go).filter (fun n => !skip.contains n) := by
+  unfold C03.specOrder
+  have hkeep : (!skip.contains C03.ND) = true := by rw [hnd]; rfl
+  have hmem : ∀ x, ((C03.listed names go).filter (fun n => !skip.contains n)).contains x
+      = ((C03.listed names go).contains x && !skip.contains x) := by
+    intro x; rw [Bool.eq_iff_iff]; simp [mem_filter]
+  rw [filter_cons, if_pos hkeep, filter_append, C13_order_listed, ← sortStr_filter, filter_filter, filter_filter]
+  congr 3
+  apply filter_congr
+  intro x _
+  rw [hmem]
+  cases (C03.listed names go).contains x <;> cases skip.contains x <;> cases (x != C03.ND) <;> rfl
+
+end Ufo2ft.C13
